@@ -147,11 +147,24 @@ Definition encoding_of_name (n : string) : option encoding :=
   else None.
 
 (* ---- correspondence ---------------------------------------------------------------------------- *)
+(* Long streams are written by the harness as segments: a stretch of the filler pattern
+   (byte i of a stretch starting at phase a is 'a' + (a+i) mod 23) or literal bytes. *)
+Inductive seg := SFill (phase : N) (len : N) | SLit (b : bytes).
+Fixpoint fill (phase : N) (len : nat) : bytes :=
+  match len with
+  | O => []
+  | S k => byte_of_N (97 + phase mod 23) :: fill (phase + 1) k
+  end.
+Definition expand (l : list seg) : bytes :=
+  flat_map (fun s => match s with SFill a n => fill a (N.to_nat n) | SLit b => b end) l.
+
 Inductive c18case :=
   (* rune decoded by WrapEncoding(enc) from each single byte 0..255 (observed through x/text) *)
 | TableCase (enc : string) (observed : list N)
   (* bytes the ingester received for (encoding setting, raw input) *)
-| PipeCase (enc : option string) (input : bytes) (observed : bytes).
+| PipeCase (enc : option string) (input : bytes) (observed : bytes)
+  (* the same for long streams, both sides given as segments *)
+| SegPipeCase (enc : option string) (input : list seg) (observed : list seg).
 
 Definition check_case (c : c18case) : bool :=
   match c with
@@ -164,6 +177,11 @@ Definition check_case (c : c18case) : bool :=
   | PipeCase enc input obs =>
       match pipeline enc input with
       | Ok out => bytes_eqb out obs
+      | PanicNilFunc => false
+      end
+  | SegPipeCase enc input obs =>
+      match pipeline enc (expand input) with
+      | Ok out => bytes_eqb out (expand obs)
       | PanicNilFunc => false
       end
   end.
